@@ -15,8 +15,8 @@ From OV Require Import Common.Base.
 Open Scope N_scope.
 
 Definition bytes := list N.
-(* Repaired = /repo HEAD + the three open fix patches; Head = /repo HEAD exactly (the five committed fixes in, the three open
-   ones not); Defective = the code before every fix (historical witnesses only) *)
+(* Repaired = /repo HEAD (all fixes committed); Head = the code before 703d203 / b01cb01 / bd61667; Defective = the code
+   before every fix.  Head and Defective serve historical witnesses only. *)
 Inductive variant := Repaired | Defective | Head.
 
 Definition zeros (n : nat) : bytes := repeat 0 n.
@@ -135,7 +135,7 @@ Definition build_udp_packet (src dst : option bytes) (sport dport : N) (payload 
   Ok (ip4_header total s4 d4 hc ++ udp_header sport dport ulen uc ++ payload).
 
 (* ------------------------------------------------------------------ relay/rewrite.go: WrapIPUDP *)
-(* Defective (HEAD before fixes/C19_giaddr_ipv4_only.patch): a non-IPv4 source or destination makes udpChecksum index a nil
+(* before bd61667 (Head, Defective): a non-IPv4 source or destination makes udpChecksum index a nil
    slice -> panic.  Repaired: WrapIPUDP returns nil (modelled as the empty byte string) like BuildIPv4UDPFrame does. *)
 Definition wrap_ip_udp (v : variant) (payload : bytes) (src dst : option bytes) : result bytes :=
   let ulen := 8 + blen payload in
@@ -213,7 +213,7 @@ Fixpoint frag_at (fuel i : nat) (rest : bytes) : option nat :=
            end
     end
   end.
-(* fixes/C19_opt82_cut_fragment.patch: InsertOption82 drops a cut-off trailing option before it works on the packet, so
+(* 703d203: InsertOption82 drops a cut-off trailing option before it works on the packet, so
    that the fragment's length byte cannot swallow the relay's option 82 *)
 Definition cut_fragment (pkt : bytes) : bytes :=
   if (length pkt <? 240)%nat then pkt
@@ -397,8 +397,8 @@ Definition build_dhcp4_reply (v : variant) (xid : N) (ciaddr yiaddr siaddr : opt
            ++ zeros 4 ++ firstn 208 (hw ++ zeros 208) ++ magic
            ++ add_opt v 53 [msgtype mod 256] ++ write_opts v opts ++ [255]).
 
-(* fixes/C19_reply_skip_empty_options.patch: the address-valued options 1, 3, 6, 54 are not written when their value is
-   empty (non-IPv4 router / server-id / DNS entries, nil netmask); Defective (HEAD before the patch) writes length 0 *)
+(* b01cb01: the address-valued options 1, 3, 6, 54 are not written when their value is empty (non-IPv4 router /
+   server-id / DNS entries, nil netmask); before it (Head, Defective) they were written with length 0 *)
 Definition nz (code : N) (data : bytes) : list (N * bytes) := match data with [] => [] | _ => [(code, data)] end.
 Definition addr_opt (v : variant) (code : N) (data : bytes) : list (N * bytes) :=
   match v with Repaired => nz code data | _ => [(code, data)] end.
